@@ -13,7 +13,7 @@ REPO = os.environ.get("VERIF_REPO", "/repo")
 WORK = os.path.join(VERIF, "work")
 QFLAGS = ["-Q", "lib", "FT.lib", "-Q", "gen", "FT.gen", "-Q", "model", "FT.model",
           "-Q", "proofs", "FT.proofs", "-Q", "props", "FT.props"]
-GEN_MODULES = ["Flags", "Effects", "ApiGen", "Common", "Interp2d", "Interp3d", "Vinterp2d", "Vinterp3d", "FteikCommon",
+GEN_MODULES = ["Flags", "Effects", "ApiGen", "IoGen", "Common", "Interp2d", "Interp3d", "Vinterp2d", "Vinterp3d", "FteikCommon",
                "Fteik2d", "Fteik3d", "Ray2d", "Ray3d"]
 
 STD_AXIOMS = {
@@ -60,6 +60,16 @@ def regen():
     rc3, out3 = sh([sys.executable, os.path.join(VERIF, "tools", "py2coq", "apigen.py"),
                     "--pkg", os.path.join(REPO, "fteikpy"), "--out", os.path.join(COQ, "gen")])
     status["ApiGen"] = {"ok": True} if rc3 == 0 else {"ok": False, "error": (out3.strip().splitlines() or ["apigen failed"])[-1][-400:]}
+    # mesh export (_io.py): same kind of extraction
+    rc4, out4 = sh([sys.executable, os.path.join(VERIF, "tools", "py2coq", "iogen.py"),
+                    "--pkg", os.path.join(REPO, "fteikpy"), "--out", os.path.join(COQ, "gen")])
+    status["IoGen"] = {"ok": True} if rc4 == 0 else {"ok": False, "error": (out4.strip().splitlines() or ["iogen failed"])[-1][-400:]}
+    for mod in ("ApiGen", "IoGen"):
+        # a rejected source leaves no generated file; an (empty) stub keeps `make` able to build everything that does not
+        # depend on it, while every theorem about the rejected layer stops compiling
+        if not status[mod]["ok"]:
+            with open(os.path.join(COQ, "gen", mod + ".v"), "w") as f:
+                f.write("(* extraction REJECTED: " + status[mod]["error"].replace("*)", "* )") + " *)\n")
     status["Flags"] = {"ok": os.path.exists(os.path.join(COQ, "gen", "Flags.v"))}
     status["Effects"] = {"ok": rc2 == 0, "error": out2[-400:]} if rc2 != 0 else {"ok": True}
     return status
